@@ -32,8 +32,9 @@ def check(ctx):
     records_append_only(ctx, P)
     same_instant(ctx, P, views, iters)
     # a stale or wrong entry in a destination's blocked_queue sends a later customer to a node its record does not name (shared instances)
-    from . import c07
+    from . import c07, c01
     c07.fifo(ctx, P, views, iters)
+    c01.no_touch_after_handover(ctx, P, views, iters)
     ctx.assume("in-repo routers return elements of simulation.nodes (C09)")
 
 
